@@ -129,8 +129,13 @@ async def run_case(ctx, rng, index):
             bundles[cfg] = b
         cap = CAP[ctx.tier]
         for r in range(REQS_PER_SCHEMA):
-            req = X.gen_request(rng, s, docgen.DocOpts(max_fields=rng.choice([3, 5, 7]), max_depth=3,
-                                                       op_kinds=("query", "mutation")))
+            if r == 2:
+                # merged sub-selections that differ per list item (type conditions) under every schedule
+                req = X.gen_request(rng, s, docgen.DocOpts(max_fields=10, max_depth=4, p_hetero=1.0, p_inline=0.3, p_repeat_outer=0.6,
+                                                           op_kinds=("query",)))
+            else:
+                req = X.gen_request(rng, s, docgen.DocOpts(max_fields=rng.choice([3, 5, 7]), max_depth=3,
+                                                           op_kinds=("query", "mutation")))
             w0, _ = X.make_worlds(s, req)
             try:
                 ref0 = X.run_reference(s, req, w0)
